@@ -9,4 +9,32 @@ package target
 /*@
 // what a sidecar can report about one target: counts are never negative
 pred wfStatus(st) = st != nil && st.Series >= 0 && st.TotalSeries >= 0
+
+// representation invariant of the moving window of the last (up to three) successful scrapes
+pred wfWindow(t) = len(t.lastSeries) <= 3 && (forall i in 0..len(t.lastSeries) :: t.lastSeries[i] >= 0)
+
+// C13: "the target's status shows health down with the error; a successful scrape shows health up with no error"
+contract ScrapeStatus.SetScrapeErr
+  requires t != nil
+  ensures[C13] @health_follows_error (err == nil ==> t.Health == "up" && t.LastError == "") && (err != nil ==> t.Health == "down")
+  ensures t.LastScrape == start
+  modifies ScrapeStatus.LastScrape at {t}, ScrapeStatus.LastScrapeDuration at {t}, ScrapeStatus.LastError at {t}, ScrapeStatus.Health at {t}
+
+// C14: "A target's series value is the integer mean of its last up to three successful scrapes, its total-series
+// value is that of the last successful scrape"
+contract ScrapeStatus.UpdateScrapeResult
+  requires t != nil && r != nil && wfWindow(t) && r.ScrapedTotal >= toreal(0) && r.Total >= toreal(0)
+  ensures[C14] @window_grows old(len(t.lastSeries)) < 3 ==> (len(t.lastSeries) == old(len(t.lastSeries)) + 1
+        && (forall i in 0..old(len(t.lastSeries)) :: t.lastSeries[i] == old(t.lastSeries[i]))
+        && t.lastSeries[old(len(t.lastSeries))] == toint(r.ScrapedTotal))
+  ensures[C14] @window_slides old(len(t.lastSeries)) == 3 ==> (len(t.lastSeries) == 3
+        && t.lastSeries[0] == old(t.lastSeries[1]) && t.lastSeries[1] == old(t.lastSeries[2]) && t.lastSeries[2] == toint(r.ScrapedTotal))
+  ensures[C14] @series_is_integer_mean (len(t.lastSeries) == 1 ==> t.Series == t.lastSeries[0])
+        && (len(t.lastSeries) == 2 ==> t.Series == (t.lastSeries[0] + t.lastSeries[1]) / 2)
+        && (len(t.lastSeries) == 3 ==> t.Series == (t.lastSeries[0] + t.lastSeries[1] + t.lastSeries[2]) / 3)
+  ensures[C14] @total_is_last_scrape t.TotalSeries == toint(r.Total) && t.LastScrapeStatistics == r
+  ensures wfWindow(t) && t.Series >= 0 && t.TotalSeries >= 0
+  modifies ScrapeStatus.lastSeries at {t}, ScrapeStatus.Series at {t}, ScrapeStatus.TotalSeries at {t}, ScrapeStatus.LastScrapeStatistics at {t}, elems(ScrapeStatus.lastSeries) at {}
+  loop 1 invariant idx1 <= 3
+  loop 1 invariant (idx1 == 0 ==> total == 0) && (idx1 == 1 ==> total == t.lastSeries[0]) && (idx1 == 2 ==> total == t.lastSeries[0] + t.lastSeries[1]) && (idx1 == 3 ==> total == t.lastSeries[0] + t.lastSeries[1] + t.lastSeries[2])
 @*/
